@@ -1176,7 +1176,10 @@ func (m *Machine) slice(f *Frame, in *ssa.Slice) Value {
 		if a.Nil {
 			a = ByteSlice{T: m.strLit("")}
 		}
-		return ByteSlice{T: m.strSlice(a.T, lot, hit)}
+		if hit != nil && hit.IsConst() && hit.U == 0 && (lot == nil || (lot.IsConst() && lot.U == 0)) {
+			return ByteSlice{T: m.strLit(""), Resliced: true} // x[:0]: empty, but keeps x's backing array
+		}
+		return ByteSlice{T: m.strSlice(a.T, lot, hit), Resliced: true}
 	}
 	if lot != nil {
 		lo = m.concInt("slice.lo", lot)
